@@ -5,6 +5,15 @@ props=[json.loads(l)["id"] for l in open('/verif/properties.jsonl')]
 hook_commits=subprocess.run(["git","-C","/repo","log","--format=%h","--grep=^verif:"],capture_output=True,text=True).stdout.split()
 # id -> (level, technique, design_ref, text, note)
 C={
+"C02":("model_checking","stateless DFS over thread schedules (preemption-bounded) of the real code under a controlled scheduler + explicit-state BFS over reader/writer event orders","DESIGN.md 4/C02",
+  "Every schedule (bounded preemptions) of reader threads against a page-recycling / map-outgrowing writer, and every order of reader/writer/rollback/reopen events within the bound: each reader dump equals the version its id names and never changes; exhaustive within the bounds.",
+  "Cooperative scheduler preempts at lock, channel, once and I/O operations of the instrumented build (generated from the current tree); reader-internal preemption argued unnecessary in DESIGN.md."),
+"C03":("model_checking","stateless DFS over thread schedules (preemption-bounded) of the real code under a controlled scheduler, serial-replay oracle","DESIGN.md 4/C03",
+  "Every schedule with bounded preemptions of 2-3 threads calling Update/View/Begin/Rollback/Commit/Stats/Close with committing, failing and panicking bodies: serial-replay oracle, consecutive ids, real-time order, single writer, no deadlock.",
+  "Data-race freedom is not decided by this technique (auxiliary -race pass reported separately)."),
+"C16":("model_checking","stateless DFS over thread/timer schedules (delay-bounded) of the real Batch code under a controlled scheduler","DESIGN.md 4/C16",
+  "Every schedule with bounded deviations of 2-3 Batch callers with succeeding/failing/panicking functions for batch sizes 0..3 and delays 0/10ms: nil => applied exactly once, error/panic => not applied, no foreign error, no sentinel, no deadlock.",
+  "Virtual time; timers and the trigger goroutine are scheduled objects of the instrumented build."),
 "C04":("model_checking","explicit-state BFS over API programs executed on the real code, reference-model oracle","DESIGN.md 4/C04",
   "Every API program up to the stated operation bound from every seed state/configuration is executed by the real code and compared step by step with a nested-map reference model; exhaustive within the bound, nothing sampled.",
   "Trusted: refmodel (documented API contract), the harness executor; bounded alphabets of keys/values/bucket names; state merging by exact state key."),
